@@ -1,22 +1,26 @@
 //! Driver for spec module `Operators` (C11 selection, C12 replacement, C17 SA acceptance and
 //! cooling): executes the real components through `Component::execute` on a prepared `State`
-//! (`Populations`, seeded `Random`, `Temperature`) and records one event per execution with the
-//! reply kind and the full projected population stack (bottom first, top last; individuals as
-//! `[tag, rank]`) and the cooling count.  Nothing is judged here; TLC validates the trace.
+//! (`Populations`, seeded `Random`, `Temperature`, for SA runs a `BestIndividual`) and records one
+//! event per execution with the reply kind and the full projected population stack (bottom first,
+//! top last; individuals as `[tag, rank]`), the cooling count of the run's own temperature and the
+//! rank of the tracked best individual.  Nothing is judged here; TLC validates the trace.
 //!
 //! Scenario (mode `replay`, also what mode `random` generates on the fly):
 //! `{"run": k, "hdr": {"vals": ["-3", "0", ...], "seed": s, "t0": "2", "alpha": "0.9",
-//!   "off": "0.1", "base": "0.5", "cell_n": 0}, "acts": [{"op": ..., "n": .., "k": .., "st": [...]}, ...]}`
+//!   "off": "0.1", "base": "0.5", "cell_n": 0, "t0_in": "77", "alpha_in": "0.5", "cell_op": "sa_accept"},
+//!  "acts": [{"op": ..., "n": .., "k": .., "st": [...], "b": -9}, ...]}`
+//! (`t0_in` / `alpha_in`: parameters of an SA step executed in a `Scope` of its own, op `nested`).
 //! `vals[r]` is the objective value of dense rank r (floats travel as strings and never reach TLC).
 use mahf::{
     components::{
+        evaluation::BestIndividualUpdate,
         mapping::sa::GeometricCooling,
         replacement::{self, sa::ExponentialAnnealingAcceptance, sa::Temperature},
         selection::{self, functional},
-        Component,
+        Component, Scope,
     },
     lens::ValueOf,
-    state::common::Populations,
+    state::common::{BestIndividual, Populations},
     ExecResult, Random, State,
 };
 use std::{
@@ -71,6 +75,11 @@ struct Hdr {
     off: f64,
     base: f64,
     cell_n: u64,
+    /// SA step nested in a `Scope` (op `nested`): its own t_0 and cooling factor
+    t0_in: f64,
+    alpha_in: f64,
+    /// which acceptance executions are the trials of the run's frequency cell
+    cell_op: String,
     json: Value,
 }
 
@@ -86,6 +95,9 @@ impl Hdr {
             off: f("off", 0.1),
             base: f("base", 0.5),
             cell_n: h.get("cell_n").and_then(|v| v.as_u64()).unwrap_or(0),
+            t0_in: f("t0_in", 77.0),
+            alpha_in: f("alpha_in", 0.5),
+            cell_op: h.get("cell_op").and_then(|v| v.as_str()).unwrap_or("sa_accept").to_string(),
             json: h.clone(),
         }
     }
@@ -134,6 +146,52 @@ fn project_temp(hdr: &Hdr, state: &St) -> i64 {
     -1
 }
 
+/// Spec: `NoBest`.
+const NO_BEST: i64 = -9;
+
+/// Rank of the tracked `BestIndividual` (P-rank), `NO_BEST` if the state tracks none.
+fn project_best(vals: &Values, state: &St) -> i64 {
+    match state.best_individual() {
+        Some(b) => vals.rank_of(&b),
+        None => NO_BEST,
+    }
+}
+
+/// Set-up: the state tracks a best individual of rank `b` (installed by the real update component
+/// from a scratch population), or none.  A state that never tracked one is left alone for `NO_BEST`.
+fn install_best(run: &mut Run, b: i64) {
+    if b == NO_BEST && !run.state.contains::<BestIndividual<TagProblem>>() {
+        return;
+    }
+    let update: Box<dyn Component<TagProblem>> = BestIndividualUpdate::new();
+    update.init(&TagProblem, &mut run.state).expect("init");
+    if b != NO_BEST {
+        run.state.populations_mut().push(vec![run.hdr.vals.individual(9_000, b)]);
+        update.execute(&TagProblem, &mut run.state).expect("update");
+        run.state.populations_mut().pop();
+    }
+}
+
+/// P-pred: p = exp(-(f(cand) - f(cur)) / t) for the two top populations and its class.
+fn sa_class(run: &Run, t: f64) -> (f64, &'static str) {
+    let (fc, fd, ok) = {
+        let pops = run.state.populations();
+        match (pops.try_peek(1).and_then(|p| p.first()), pops.try_peek(0).and_then(|p| p.first())) {
+            (Some(cur), Some(cand)) => (cur.objective().value(), cand.objective().value(), true),
+            _ => (0.0, 0.0, false),
+        }
+    };
+    let p = if ok { (-(fd - fc) / t).exp() } else { f64::NAN };
+    let pc = if p < 1e-12 {
+        "zero"
+    } else if p > 1.0 - 1e-12 {
+        "one"
+    } else {
+        "mid" // includes NaN (inf - inf): no constraint from the probability
+    };
+    (p, pc)
+}
+
 fn res(k: &str) -> Value {
     json!({"k": k, "w": []})
 }
@@ -169,6 +227,16 @@ fn component(hdr: &Hdr, op: &str, n: u32, k: u32) -> ExecResult<Box<dyn Componen
         "keep_better" => replacement::KeepBetterAtIndex::new(),
         "sa_accept" => ExponentialAnnealingAcceptance::new(hdr.t0),
         "cool" => GeometricCooling::new(hdr.alpha, ValueOf::<Temperature>::new())?,
+        "update_best" => BestIndividualUpdate::new(),
+        // an SA step in a scope of its own: n coolings of ITS temperature, then ITS acceptance
+        "nested" => {
+            let mut body: Vec<Box<dyn Component<TagProblem>>> = Vec::new();
+            for _ in 0..n {
+                body.push(GeometricCooling::new(hdr.alpha_in, ValueOf::<Temperature>::new())?);
+            }
+            body.push(ExponentialAnnealingAcceptance::new(hdr.t0_in));
+            Scope::new(body)
+        }
         other => panic!("unknown op {other}"),
     })
 }
@@ -184,15 +252,20 @@ fn start_run(hdr: Hdr) -> Run {
 }
 
 fn reset_rec(run: u64, hdr: &Hdr) -> Value {
-    json!({"run": run, "act": act("reset", 0, 0), "res": res("ok"), "stack": [], "temp": 0, "hdr": hdr.json})
+    json!({"run": run, "act": act("reset", 0, 0), "res": res("ok"), "stack": [], "temp": 0, "best": NO_BEST, "hdr": hdr.json})
 }
 
 fn act(op: &str, n: u64, k: u64) -> Value {
-    json!({"op": op, "n": n, "k": k, "st": [], "pc": "-", "lo": 0, "hi": 0, "last": 0})
+    json!({"op": op, "n": n, "k": k, "st": [], "pc": "-", "lo": 0, "hi": 0, "last": 0, "b": NO_BEST})
 }
 
 fn act_st(op: &str, st: Value) -> Value {
-    json!({"op": op, "n": 0, "k": 0, "st": st, "pc": "-", "lo": 0, "hi": 0, "last": 0})
+    json!({"op": op, "n": 0, "k": 0, "st": st, "pc": "-", "lo": 0, "hi": 0, "last": 0, "b": NO_BEST})
+}
+
+/// `load` that also installs a tracked best individual of rank `b`.
+fn act_load(st: Value, b: i64) -> Value {
+    json!({"op": "load", "n": 0, "k": 0, "st": st, "pc": "-", "lo": 0, "hi": 0, "last": 0, "b": b})
 }
 
 /// Acceptance-count bounds for N trials with probability p: 6 sigma + 1 (P-pred, from inputs only).
@@ -224,8 +297,14 @@ fn exec(run: &mut Run, a: &Value) -> (Value, Value, String) {
     let r = match op.as_str() {
         "load" => {
             let pops: Vec<Vec<Ind>> = a["st"].as_array().unwrap().iter().map(|p| pop_from(&run.hdr.vals, p)).collect();
+            {
+                let mut stack = run.state.populations_mut();
+                while stack.try_pop().is_some() {}
+            }
+            let b = a.get("b").and_then(|v| v.as_i64()).unwrap_or(NO_BEST);
+            a["b"] = json!(b);
+            install_best(run, b);
             let mut stack = run.state.populations_mut();
-            while stack.try_pop().is_some() {}
             for p in pops {
                 stack.push(p);
             }
@@ -256,44 +335,48 @@ fn exec(run: &mut Run, a: &Value) -> (Value, Value, String) {
             }
         }
         _ => {
-            if op == "sa_accept" {
-                // P-pred: class of p = exp(-(f(cand) - f(cur)) / T), from the inputs only
-                let (fc, fd, ok) = {
-                    let pops = run.state.populations();
-                    match (pops.try_peek(1).and_then(|p| p.first()), pops.try_peek(0).and_then(|p| p.first())) {
-                        (Some(cur), Some(cand)) => (cur.objective().value(), cand.objective().value(), true),
-                        _ => (0.0, 0.0, false),
-                    }
-                };
-                let t = run.state.get_value::<Temperature>();
-                let p = if ok { (-(fd - fc) / t).exp() } else { f64::NAN };
-                let pc = if p < 1e-12 {
-                    "zero"
-                } else if p > 1.0 - 1e-12 {
-                    "one"
+            if op == "sa_accept" || op == "nested" {
+                // P-pred: class of p = exp(-(f(cand) - f(cur)) / T), from the inputs only; T is the
+                // temperature of the run for `sa_accept`, and for `nested` the temperature the SA in
+                // the scope works at: its own t_0 times its own factor, once per cooling it performs
+                let t = if op == "sa_accept" {
+                    run.state.get_value::<Temperature>()
                 } else {
-                    "mid" // includes NaN (inf - inf): no constraint from the probability
+                    (0..n).fold(run.hdr.t0_in, |t, _| t * run.hdr.alpha_in)
                 };
-                run.sa_trials += 1;
-                match run.p_first {
-                    None => run.p_first = Some(p),
-                    Some(q) => {
-                        if q.to_bits() != p.to_bits() {
-                            run.p_changed = true
-                        }
-                    }
-                }
+                let (p, pc) = sa_class(run, t);
                 a["pc"] = json!(pc);
                 a["lo"] = json!(0);
                 a["hi"] = json!(1_000_000);
                 a["last"] = json!(0);
-                if run.hdr.cell_n > 0 && run.sa_trials == run.hdr.cell_n && !run.p_changed {
+                // trials of the run's frequency cell: the executions of the op the cell is about
+                let counted = op == "sa_accept" || (run.hdr.cell_n > 0 && run.hdr.cell_op == "nested");
+                if op == "nested" {
+                    a["k"] = json!(counted as u64);
+                }
+                let trial = run.hdr.cell_op == op;
+                if trial {
+                    run.sa_trials += 1;
+                    match run.p_first {
+                        None => run.p_first = Some(p),
+                        Some(q) => {
+                            if q.to_bits() != p.to_bits() {
+                                run.p_changed = true
+                            }
+                        }
+                    }
+                }
+                if trial && run.hdr.cell_n > 0 && run.sa_trials == run.hdr.cell_n && !run.p_changed {
                     let (lo, hi) = bounds(p, run.hdr.cell_n);
                     a["lo"] = json!(lo);
                     a["hi"] = json!(hi);
                     a["last"] = json!(1);
                     a["p"] = json!(format!("{p:e}"));
                 }
+            }
+            if op == "update_best" && !run.state.contains::<BestIndividual<TagProblem>>() {
+                // set-up (the template's init phase): the memory exists and is empty
+                BestIndividualUpdate::new::<TagProblem>().init(&TagProblem, &mut run.state).expect("init");
             }
             match component(&run.hdr, &op, n, k) {
                 Err(e) => {
@@ -323,13 +406,15 @@ fn exec(run: &mut Run, a: &Value) -> (Value, Value, String) {
 fn emit_step(out: &Arc<Shared>, run_id: u64, i: usize, run: &mut Run, a: &Value) -> Value {
     let before = json!({"run": run_id, "i": i, "act": a, "res": res("timeout"),
                         "stack": project_stack(&run.hdr.vals, &run.state),
-                        "temp": project_temp(&run.hdr, &run.state)});
+                        "temp": project_temp(&run.hdr, &run.state),
+                        "best": project_best(&run.hdr.vals, &run.state)});
     *out.pending.lock().unwrap() = Some((Instant::now(), before));
     let (a2, r, note) = exec(run, a);
     *out.pending.lock().unwrap() = None;
     let mut rec = json!({"run": run_id, "i": i, "act": a2, "res": r,
                          "stack": project_stack(&run.hdr.vals, &run.state),
-                         "temp": project_temp(&run.hdr, &run.state)});
+                         "temp": project_temp(&run.hdr, &run.state),
+                         "best": project_best(&run.hdr.vals, &run.state)});
     if !note.is_empty() {
         rec["note"] = json!(note.chars().take(160).collect::<String>());
     }
@@ -677,30 +762,50 @@ fn random_loop(out: &Arc<Shared>, run_id: u64, seed: u64, len: u64, max: usize) 
     }
 }
 
-/// SA in template order (heuristics/sa.rs): All, generation (stand-in: set_top), cooling, acceptance.
+/// SA in template order (heuristics/sa.rs): All, generation (stand-in: set_top), [constraints: an SA step in a
+/// scope of its own refining the candidate], (evaluation), best-individual update, cooling, acceptance.
+/// The objective values (and temperatures) of a run live on one of the scales 1e-18 .. 1e18.
 fn random_sa_template(out: &Arc<Shared>, run_id: u64, seed: u64, len: u64) {
     let mut r = rng(seed, run_id);
-    let u = universe(&mut r, 40);
+    let mut u = universe(&mut r, 40);
+    let scale: f64 = *[1e-18, 1e-9, 1.0, 1.0, 1e9, 1e18].choose(&mut r).unwrap();
+    u.vals = u.vals.iter().map(|v| fmt(v.parse::<f64>().unwrap() * scale)).collect();
     let mut h = hdr_json(&u, r.gen(), &mut r);
-    h["t0"] = json!(*["2.0", "1e3", "1e-3", "50.0", "1e9"].choose(&mut r).unwrap());
+    let scaled = |x: &str| fmt(x.parse::<f64>().unwrap() * scale);
+    h["t0"] = json!(scaled(*["2.0", "1e3", "1e-3", "50.0", "1e9"].choose(&mut r).unwrap()));
     h["alpha"] = json!(*["0.9", "0.5", "0.99", "0.1"].choose(&mut r).unwrap());
+    h["t0_in"] = json!(scaled(*["3.0e-4", "77.0", "4.1e8"].choose(&mut r).unwrap()));
+    h["alpha_in"] = json!(*["0.7", "0.25"].choose(&mut r).unwrap());
     let hdr = Hdr::parse(&h);
     out.out.lock().unwrap().emit(&reset_rec(run_id, &hdr));
     let mut run = start_run(hdr);
     let first = *u.inds.choose(&mut r).unwrap();
-    emit_step(out, run_id, 0, &mut run, &act_st("load", json!([[[first.0, first.1]]])));
-    let mut i = 1;
+    // as the templates start: one evaluated individual, offered to the best-individual update
+    emit_step(out, run_id, 0, &mut run, &act_load(json!([[[first.0, first.1]]]), NO_BEST));
+    emit_step(out, run_id, 1, &mut run, &act("update_best", 0, 0));
+    let mut i = 2;
+    let other = |r: &mut ChaCha8Rng, not: u32| loop {
+        let c = *u.inds.choose(r).unwrap();
+        if c.0 != not {
+            break c;
+        }
+    };
     for _ in 0..len {
         emit_step(out, run_id, i, &mut run, &act("all", 0, 0));
         let cur_tag = run.state.populations().current()[0].solution().clone();
-        let cand = loop {
-            let c = *u.inds.choose(&mut r).unwrap();
-            if c.0 != cur_tag {
-                break c;
-            }
-        };
+        let cand = other(&mut r, cur_tag);
         emit_step(out, run_id, i + 1, &mut run, &act_st("set_top", json!([[[cand.0, cand.1]]])));
         i += 2;
+        if r.gen_bool(0.3) {
+            // the candidate is refined by an SA step of its own, in a scope of its own
+            emit_step(out, run_id, i, &mut run, &act("all", 0, 0));
+            let c2 = other(&mut r, cand.0);
+            emit_step(out, run_id, i + 1, &mut run, &act_st("set_top", json!([[[c2.0, c2.1]]])));
+            emit_step(out, run_id, i + 2, &mut run, &act("nested", r.gen_range(0..=2), 0));
+            i += 3;
+        }
+        emit_step(out, run_id, i, &mut run, &act("update_best", 0, 0));
+        i += 1;
         let cools = match r.gen_range(0..10) {
             0 => 0,
             1 => 2,
@@ -715,47 +820,166 @@ fn random_sa_template(out: &Arc<Shared>, run_id: u64, seed: u64, len: u64) {
     }
 }
 
+/// What one acceptance trial of a cell looks like.
+#[derive(Clone, Copy, PartialEq)]
+enum Trial {
+    /// load, acceptance at the run's temperature
+    Plain,
+    /// the state also tracks a best individual that is strictly better than both operands
+    Best,
+    /// load, an SA step at a far-away temperature in a scope of its own, load, acceptance at the run's temperature
+    AfterNested,
+    /// load, SA step (one cooling, acceptance) in a scope of its own; the cell is about that step
+    Nested,
+}
+
 /// One (pair, T) cell: N acceptance trials of the same current/candidate pair at the same T.
-fn sa_cell(out: &Arc<Shared>, run_id: u64, seed: u64, cur: f64, cand: f64, t: f64, n: u64) {
-    let (vals, rc, rd): (Vec<String>, i64, i64) = if cur < cand {
-        (vec![fmt(cur), fmt(cand)], 0, 1)
+fn sa_cell(out: &Arc<Shared>, run_id: u64, seed: u64, cur: f64, cand: f64, t: f64, n: u64, kind: Trial) {
+    let (mut vals, mut rc, mut rd): (Vec<f64>, i64, i64) = if cur < cand {
+        (vec![cur, cand], 0, 1)
     } else if cur > cand {
-        (vec![fmt(cand), fmt(cur)], 1, 0)
+        (vec![cand, cur], 1, 0)
     } else {
-        (vec![fmt(cur)], 0, 0)
+        (vec![cur], 0, 0)
     };
-    let h = json!({"vals": vals, "seed": seed.wrapping_mul(1_000_003).wrapping_add(run_id), "t0": fmt(t),
-                   "alpha": "0.5", "off": "0.1", "base": "0.5", "cell_n": n});
+    let mut best = NO_BEST;
+    if kind == Trial::Best {
+        // tracked best: below both operands by twice their distance (or by the scale of the values)
+        let lo = vals[0];
+        let gap = if cur != cand { 2.0 * (cur - cand).abs() } else { lo.abs().max(f64::MIN_POSITIVE) };
+        let b = lo - gap;
+        if b < lo && b.is_finite() {
+            vals.insert(0, b);
+            rc += 1;
+            rd += 1;
+            best = 0;
+        }
+    }
+    let alpha_in = 0.5;
+    // Nested: the cell's temperature t is the one the nested SA works at after its single cooling; the enclosing run is
+    // frozen (or boiling) far away from it.  AfterNested: the other way round.
+    let far = if t < 1.0 { t * 1e21 } else { t * 1e-21 };
+    let (t0, t0_in) = match kind {
+        Trial::Nested => (far, t / alpha_in),
+        Trial::AfterNested => (t, far),
+        _ => (t, 77.0),
+    };
+    let h = json!({"vals": vals.iter().map(|v| fmt(*v)).collect::<Vec<_>>(),
+                   "seed": seed.wrapping_mul(1_000_003).wrapping_add(run_id), "t0": fmt(t0),
+                   "alpha": "0.5", "off": "0.1", "base": "0.5", "cell_n": n, "t0_in": fmt(t0_in), "alpha_in": fmt(alpha_in),
+                   "cell_op": if kind == Trial::Nested { "nested" } else { "sa_accept" }});
     let hdr = Hdr::parse(&h);
     out.out.lock().unwrap().emit(&reset_rec(run_id, &hdr));
     let mut run = start_run(hdr);
-    for j in 0..n as usize {
-        emit_step(out, run_id, 2 * j, &mut run, &act_st("load", json!([[[1, rc]], [[2, rd]]])));
-        emit_step(out, run_id, 2 * j + 1, &mut run, &act("sa_accept", 0, 0));
+    let load = act_load(json!([[[1, rc]], [[2, rd]]]), best);
+    let mut i = 0;
+    let mut step = |run: &mut Run, a: &Value| {
+        emit_step(out, run_id, i, run, a);
+        i += 1;
+    };
+    for _ in 0..n {
+        step(&mut run, &load);
+        match kind {
+            Trial::Plain | Trial::Best => step(&mut run, &act("sa_accept", 0, 0)),
+            Trial::AfterNested => {
+                step(&mut run, &act("nested", 0, 0));
+                step(&mut run, &load);
+                step(&mut run, &act("sa_accept", 0, 0));
+            }
+            Trial::Nested => step(&mut run, &act("nested", 1, 0)),
+        }
     }
 }
 
+/// The (pair, T) grid.  Worse candidates by d at T = d / x for ratios x from 1e-15 (boiling) to 1e9 (frozen); better and
+/// equal candidates at every temperature.  The same on every scale of objective values from 1e-18 to 1e18 (differences far
+/// below f64::EPSILON in absolute terms, or far above 1 / EPSILON, but always large or small *relative to T*), for
+/// neighbouring floats, around zero and for negative values; with a tracked best individual that differs from the current
+/// solution; and with a second SA, at a far-away temperature, working in a scope of its own.
 fn random_sa_cells(out: &Arc<Shared>, first_run: u64, seed: u64, n: u64, full: bool) -> u64 {
     let mut run_id = first_run;
     let ratios_all = [1e-15, 1e-9, 1e-3, 0.1, 0.5, 1.0, 2.0, 5.0, 30.0, 1e3, 1e9];
     let ratios_few = [1e-9, 1.0, 1e9];
     let bases: &[f64] = if full { &[-5.0, 0.0, 3.0] } else { &[0.0] };
     let mut r = rng(seed, 777);
+    let small = (n / 8).max(10);
     for &d in &[1e-6, 1.0, 1e6] {
         let ratios: &[f64] = if d == 1.0 || full { &ratios_all } else { &ratios_few };
         for &x in ratios {
             let base = *bases.choose(&mut r).unwrap();
             let t = d / x;
             // worse candidate: accepted with probability exp(-d/T)
-            sa_cell(out, run_id, seed, base, base + d, t, n);
+            sa_cell(out, run_id, seed, base, base + d, t, n, Trial::Plain);
             run_id += 1;
         }
         // better and equal candidates: always accepted, at every temperature
         for &t in &[1e-9, 1.0, 1e9] {
-            sa_cell(out, run_id, seed, 0.5 + d, 0.5, t, (n / 8).max(10));
-            sa_cell(out, run_id + 1, seed, 0.5, 0.5, t, (n / 8).max(10));
+            sa_cell(out, run_id, seed, 0.5 + d, 0.5, t, small, Trial::Plain);
+            sa_cell(out, run_id + 1, seed, 0.5, 0.5, t, small, Trial::Plain);
             run_id += 2;
         }
+    }
+    // --- every scale: (current, candidate) pairs whose difference d is of the order of the values themselves
+    let ulp = |x: f64| f64::from_bits(x.to_bits() + 1) - x;
+    let mut pairs: Vec<(f64, f64)> = Vec::new();
+    for &s in &[1e-18, 1e-12, 1e12, 1e18] {
+        pairs.push((s, 3.0 * s));
+    }
+    if full {
+        for &s in &[1e-30, 1e-15, 1e-9, 1e9, 1e15, 1e30] {
+            pairs.push((s, 3.0 * s));
+        }
+        pairs.push((1e-300, 2e-300));
+    }
+    pairs.push((-3e-18, -1e-18)); // negative, tiny
+    pairs.push((-1e-17, 1e-17)); // around zero
+    pairs.push((0.0, 5e-17)); // from zero
+    pairs.push((0.5, 0.5 + ulp(0.5))); // neighbouring floats
+    pairs.push((1e18, 1e18 + ulp(1e18)));
+    pairs.push((-2.5e18, -1e18)); // negative, huge
+    for &(cur, cand) in &pairs {
+        let d = cand - cur;
+        let ratios: &[f64] = if full { &ratios_all } else { &[1e-9, 1.0, 30.0, 1e9] };
+        for &x in ratios {
+            let extreme = x < 1e-6 || x > 29.0;
+            sa_cell(out, run_id, seed, cur, cand, d / x, if extreme { (n / 4).max(10) } else { n }, Trial::Plain);
+            run_id += 1;
+        }
+        // the other way round the candidate is better; and equal values: always accepted, frozen or boiling
+        for &t in &[d * 1e-9, d * 1e9] {
+            sa_cell(out, run_id, seed, cand, cur, t, small, Trial::Plain);
+            sa_cell(out, run_id + 1, seed, cand, cand, t, small, Trial::Plain);
+            run_id += 2;
+        }
+    }
+    // --- the state tracks a best individual that is not the current solution (every SA run after an accepted
+    // worsening move): the decision is about current and candidate
+    for &(cur, cand) in &[(1.0, 2.0), (-4.0, -3.5), (1e-18, 3e-18), (1e12, 3e12)] {
+        let d: f64 = cand - cur;
+        for &x in &[1e-9, 0.5, 1.0, 30.0, 1e9] {
+            let extreme = x < 1e-6 || x > 29.0;
+            sa_cell(out, run_id, seed, cur, cand, d / x, if extreme { (n / 4).max(10) } else { n }, Trial::Best);
+            run_id += 1;
+        }
+        // better than (or equal to) the current solution, worse than the tracked best: always accepted
+        for &t in &[d * 1e-9, d, d * 1e9] {
+            sa_cell(out, run_id, seed, cand, cur, t, small, Trial::Best);
+            sa_cell(out, run_id + 1, seed, cand, cand, t, small, Trial::Best);
+            run_id += 2;
+        }
+    }
+    // --- two SAs in different scopes, each with its own temperature
+    for &(cur, cand) in &[(1.0, 2.0), (1e-18, 3e-18)] {
+        let d: f64 = cand - cur;
+        for &x in &[1e-9, 1.0, 1e9] {
+            let m = if x == 1.0 { n } else { (n / 4).max(10) };
+            sa_cell(out, run_id, seed, cur, cand, d / x, m, Trial::AfterNested);
+            sa_cell(out, run_id + 1, seed, cur, cand, d / x, m, Trial::Nested);
+            run_id += 2;
+        }
+        sa_cell(out, run_id, seed, cand, cur, d * 1e-9, small, Trial::AfterNested);
+        sa_cell(out, run_id + 1, seed, cand, cur, d * 1e-9, small, Trial::Nested);
+        run_id += 2;
     }
     run_id
 }
